@@ -115,6 +115,15 @@ fn ext_unary_real(d: usize, a: &[u64], what: &str, e: u64) -> Option<Vec<F>> {
                 "inv" => x.try_inverse()?,
                 "frob" => x.frobenius(),
                 "exp" => x.exp_u64(e),
+                "rfrob" => x.repeated_frobenius(e as usize),
+                "frobiter" => {
+                    // e applications of the single Frobenius (validated against a^p by the recorded chains)
+                    let mut y = x;
+                    for _ in 0..e {
+                        y = y.frobenius();
+                    }
+                    y
+                }
                 _ => unreachable!(),
             };
             Some(r.0.to_vec())
@@ -362,6 +371,19 @@ pub fn record(args: &[String]) -> anyhow::Result<()> {
         let st: Vec<u64> = (0..d).map(|_| r.gen()).collect();
         for (got, exp) in powers_frobenius(d, &x, &st) {
             log.put(&json!({"op": "eeq", "d": d, "a": fls(&got), "b": fls(&exp)}));
+        }
+        // repeated_frobenius(count) for every count in 0..=2D+1 (0 and the multiples of D are the identity):
+        // equal to `count` applications of the single Frobenius, and to the element itself when D | count
+        for t in 0..2 {
+            let a: Vec<u64> = if t == 0 { (0..d).map(|_| r.gen()).collect() } else { (0..d).map(|i| bw[(i * 7 + d) % bw.len()]).collect() };
+            for k in 0..=(2 * d + 1) as u64 {
+                let got = ext_unary_real(d, &a, "rfrob", k).unwrap();
+                let exp = ext_unary_real(d, &a, "frobiter", k).unwrap();
+                log.put(&json!({"op": "eeq", "d": d, "a": fls(&got), "b": fls(&exp)}));
+                if k % d as u64 == 0 {
+                    log.put(&json!({"op": "eeq", "d": d, "a": fls(&got), "b": ws(&a)}));
+                }
+            }
         }
         // generators: W is a non-residue of the right kind: DTH_ROOT^D = 1 is covered by frob
     }
